@@ -809,6 +809,7 @@ def q_alloc_bound(ctx, p):
         return dict(status="inconclusive", reason="no function matched")
     call_re = re.compile(p.get("call", r"::(with_capacity|reserve|reserve_exact|from_elem|resize)$"))
     limit, len_max = int(p.get("limit", 2**32)), int(p.get("len_max", 2**32))
+    und_sites = []
     witnesses, details, functions = [], [], []
     obligations = discharged = undecided = 0
     for fn in sel:
@@ -841,6 +842,7 @@ def q_alloc_bound(ctx, p):
                 arg = enc.operand(st, t["args"][idx])
             if arg is None or not z3.is_int(arg):
                 undecided += 1
+                und_sites.append("%s bb%d %s" % (short_fn(fn.name), b, cal.split("::")[-1]))
                 continue
             # decided only where the size is built (through modelled arithmetic) from integer
             # PARAMETERS of the function, lengths of existing collections and constants; sizes that
@@ -848,6 +850,7 @@ def q_alloc_bound(ctx, p):
             # loop-carried values are undecided, never witnesses
             if not provenance_ok(enc, arg, False):
                 undecided += 1
+                und_sites.append("%s bb%d %s [size not built from inputs]" % (short_fn(fn.name), b, cal.split("::")[-1]))
                 continue
             obligations += 1
             r = ctx.check(s, enc.reach[b], arg > limit)
@@ -860,6 +863,8 @@ def q_alloc_bound(ctx, p):
             else:
                 undecided += 1
     details.append("%d functions with reservation calls; %d sites decided, %d undecided (size not a modelled term or loop-carried)" % (len(functions), obligations, undecided))
+    if und_sites:
+        details.append("undecided sites: " + "; ".join(und_sites[:40]))
     if obligations == 0:
         return dict(status="inconclusive", reason="vacuity guard: no reservation site could be decided", details=details)
     uniq = {}
